@@ -56,7 +56,7 @@ def main():
         if delay_base:
             rc, o = run(["git", "apply", "--whitespace=nowarn", delay_base], wt)
             out["delay_base_applies"] = rc == 0
-        rc, o = run(["go", "test"] + race + ["-vet=off", "-count=1", "-run", runre, "./" + sub], wt, 600)
+        rc, o = run(["go", "test"] + race + ["-vet=off", "-count=1", "-timeout", "240s", "-run", runre, "./" + sub], wt, 600)
         out["demo_without_patch"] = "pass" if rc == 0 else "FAIL"
         out["demo_without_tail"] = o[-400:]
         if delay_base:
@@ -80,7 +80,7 @@ def main():
             if delay:
                 rc, o = run(["git", "apply", "--whitespace=nowarn", delay], wt)
                 out["delay_applies"] = rc == 0
-            rc, o = run(["go", "test"] + race + ["-vet=off", "-count=1", "-run", runre, "./" + sub], wt, 600)
+            rc, o = run(["go", "test"] + race + ["-vet=off", "-count=1", "-timeout", "240s", "-run", runre, "./" + sub], wt, 600)
             out["demo_with_patch"] = "pass" if rc == 0 else "FAIL"
             out["demo_with_tail"] = o[-600:]
     finally:
